@@ -3,4 +3,4 @@
 # check against it (scratch copies only).
 cd "$(dirname "$0")"
 ROOT="${1:-seeded}"; shift || true
-for d in $ROOT/C*/; do id=$(basename $d); ./seed_confirm.sh $id $d "$@"; done
+for d in $ROOT/C*/; do [ -f "$d/patch.diff" ] || continue; id=$(basename $d); ./seed_confirm.sh $id $d "$@"; done
